@@ -75,7 +75,7 @@ def compare(got, want, unordered):
 class C11(Check):
     ID = 'C11'
     LEVEL = 'exploration'
-    BUDGET = {'quick': 30, 'thorough': 240}
+    BUDGET = {'quick': 75, 'thorough': 240}
     RULE = ('case = (program from the typed generator: up to 5 top-level operators, nesting depth <= 3 of group_by / roll / split / time_split / tee_map '
             'around stateless, stateful, reducing and batching operators; input of 0..30 ints (every 700th case at scale: ~700 items, take/batch/lag 257+, roll windows of 257-400, 300-1000 groups, day-scale time_split timeouts on datetime stamps); mode multiplexed, or plain for programs made of '
             'dual-mode operators without take/first). The source is a Subject; every output is stamped with the index of the item being pushed. '
